@@ -51,6 +51,15 @@ def load_known_findings():
             out.append(rec)
     return out
 
+import re as _re
+_globcache = {}
+def _glob(pat, s):
+    """only '*' is special (obligation ids contain [ ] ? literally)"""
+    rx = _globcache.get(pat)
+    if rx is None:
+        rx = _globcache[pat] = _re.compile('^' + '.*'.join(_re.escape(x) for x in pat.split('*')) + '$', _re.S)
+    return rx.match(s) is not None
+
 class Ob(object):
     __slots__ = ('oid', 'status', 'mode', 'backend', 'secs', 'detail', 'witness', 'confirmed', 'func')
     def __init__(self, oid, status, mode, backend, secs=0.0, detail=None, witness=None, confirmed=None, func=None):
@@ -130,7 +139,7 @@ class Run(object):
         def kf_match(oid):
             for r in kf:
                 for pat in r.get('obligations', []):
-                    if pat == oid or (r.get('pattern') and fnmatch.fnmatchcase(oid, pat)):
+                    if pat == oid or (r.get('pattern') and _glob(pat, oid)):
                         return r
             return None
         n_viol = 0
